@@ -1,9 +1,83 @@
 import HedVerif.Driver.Util
+import HedVerif.Model.Cache
 open Lean
 namespace HedVerif.Driver.C19
-open HedVerif HedVerif.Driver
+open HedVerif HedVerif.Driver HedVerif.Cache
 
-/-- requests `{"op":"c19.<name>", ...}` of property C19 (stub: none yet) -/
-def handle (_op : String) (_j : Json) : Option (Except String Json) := none
+def parseProto (s : String) : Except String Proto :=
+  match s with
+  | "safe" => .ok .safe
+  | "current" => .ok .current
+  | _ => .error s!"unknown proto {s}"
+
+def parseProc (j : Json) : Except String (Kind × Nat) := do
+  let k ← getString j "kind"
+  let a ← getNat j "arg"
+  let now ← getNat j "now"
+  match k with
+  | "populate" => pure (.populate, now)
+  | "load" => pure (.load a, now)
+  | "refresh" => pure (.refresh a, now)
+  | _ => throw s!"unknown process kind {k}"
+
+def parseAction (j : Json) : Except String Action := do
+  let xs ← asArr j
+  match xs with
+  | [p, c] =>
+    let p ← asNat p
+    let c ← asNat c
+    pure (if c = 0 then .step p else .crash p)
+  | _ => throw "action must be [pid, 0|1]"
+
+def contentJson (ct : Content) : Json := jarr [jnat ct.src, jarr (ct.chunks.map jbool)]
+
+def statusName : Status → String
+  | .running => "running" | .finished => "finished" | .crashed => "crashed"
+
+def errJson : Option CErr → Json
+  | none => Json.null
+  | some .tooRecent => Json.str "tooRecent"
+  | some .lockTimeout => Json.str "lockTimeout"
+
+def gotJson : Option (Option Content) → Json
+  | none => Json.null
+  | some none => Json.str "notFound"
+  | some (some ct) => contentJson ct
+
+def pcName : Pc → String
+  | .list1 => "list1" | .readTs => "readTs" | .openLock => "openLock" | .tryLock _ => "tryLock"
+  | .pick _ => "pick" | .mktemp _ => "mktemp" | .create _ => "create" | .append _ _ => "append"
+  | .rename _ => "rename" | .writeTs => "writeTs" | .unlock => "unlock" | .list2 => "list2" | .read => "read"
+
+def procJson (pr : Proc) : Json :=
+  jobj [("status", Json.str (statusName pr.status)), ("err", errJson pr.err), ("saw", jbool pr.saw),
+        ("got", gotJson pr.got), ("pc", Json.str (pcName pr.pc)), ("region", jbool pr.inRegion)]
+
+/-- `{"op":"c19.run","proto":"safe"|"current","cfg":{nFiles,chunks,thr,retries},
+"procs":[{"kind","arg","now"}],"sched":[[pid,0=step|1=crash],…]}` → trace of primitives, whether two
+processes were ever inside the locked region together, final directory and process records. -/
+def handle (op : String) (j : Json) : Option (Except String Json) :=
+  match op with
+  | "c19.run" => some do
+      let proto ← parseProto (← getString j "proto")
+      let cj ← getVal j "cfg"
+      let c : Cfg := ⟨← getNat cj "nFiles", ← getNat cj "chunks", ← getNat cj "thr", ← getNat cj "retries"⟩
+      let ps ← (← getArr j "procs").mapM parseProc
+      let sched ← (← getArr j "sched").mapM parseAction
+      let n := ps.length
+      let (tr, ov, s) := run c proto n sched (init ps)
+      let nf := ps.foldl (fun m (k, _) => match k with | .refresh r => max m r | _ => m) c.nFiles
+      let finals := (List.range nf).filterMap fun f =>
+        (s.files (.final f)).map fun ct => jarr [jnat f, contentJson ct, jbool (ct == full c f)]
+      let tmps := (List.range n).flatMap fun p => (List.range nf).filterMap fun f =>
+        (s.files (.tmp p f)).map fun ct => jarr [jnat p, jnat f, contentJson ct]
+      pure <| jobj [
+        ("trace", jarr (tr.map fun e => jarr [jnat e.pid, Json.str e.what, jnat e.i, jnat e.j])),
+        ("overlap", jbool ov),
+        ("finals", jarr finals), ("tmps", jarr tmps),
+        ("lockFile", jbool s.lockFile), ("holder", jopt jnat s.holder), ("ts", jopt jnat s.ts),
+        ("dirty", jbool s.dirty),
+        ("procs", jarr ((List.range n).map fun p => procJson (s.procs p)))]
+  | _ => none
 
 end HedVerif.Driver.C19
